@@ -767,10 +767,18 @@ class Element(object):
         return self._parent
 
     def _set_parent(self, parent):
+        old_parent = getattr(self, '_parent', None)
+        old_traversal_parent = getattr(self, '_traversal_parent', None)
         self._parent = parent
         if parent is not None:
             self.traversal_parent = None
-            self.parent.add(self)
+            try:
+                self.parent.add(self)
+            except Exception:
+                # the parent has rejected the child: do not leave it half-attached
+                self._parent = old_parent
+                self._traversal_parent = old_traversal_parent
+                raise
 
     parent = property(_get_parent, _set_parent,
                       doc="The parent :class:`Element <hl7apy.core.Element>` of this one")
